@@ -27,6 +27,19 @@
 #include "nmtools/array/view/flip.hpp"
 #include "nmtools/array/view/sum.hpp"
 #include "nmtools/array/view/matmul.hpp"
+#ifndef C13_PART
+#define C13_PART 1
+#endif
+#if C13_PART == 2
+#include "nmtools/array/view/activations/leaky_relu.hpp"
+#include "nmtools/array/view/activations/hardtanh.hpp"
+#include "nmtools/array/view/activations/hardshrink.hpp"
+#include "nmtools/array/view/activations/softshrink.hpp"
+#include "nmtools/array/view/expand_dims.hpp"
+#include "nmtools/array/view/reshape.hpp"
+#include "nmtools/array/view/broadcast_to.hpp"
+#include "nmtools/array/view/tile.hpp"
+#endif
 #include "show.hpp"
 
 namespace fn = nmtools::functional;
@@ -46,20 +59,21 @@ template <typename S> static std::vector<size_t> shape_vec(const S& s_) {
 }
 
 // one leaf operand as a raw triple (what crosses the host/device boundary)
-struct Triple { ll* data; std::vector<size_t> shape; size_t dim; };
+struct Triple { void* data; std::vector<size_t> shape; size_t dim; };
+template <typename leaf_t> using elem_of = std::remove_cv_t<std::remove_pointer_t<decltype(nm::data(std::declval<const leaf_t&>()))>>;
 template <typename leaf_t> static Triple triple_of(const leaf_t& leaf) {
-    Triple t; t.data = const_cast<ll*>(nm::data(leaf)); t.shape = shape_vec(nm::shape(leaf)); t.dim = t.shape.size(); return t;
+    Triple t; t.data = (void*)const_cast<elem_of<leaf_t>*>(nm::data(leaf)); t.shape = shape_vec(nm::shape(leaf)); t.dim = t.shape.size(); return t;
 }
 
 // style "cuda": operands are device_array objects over the raw pointer (cuda/hip context::create_array + get_)
 // style "ocl" : operands are create_array(ptr, shape_ptr, dim) views (opencl kernels, sycl create_array)
-template <bool OCL> static auto rebuild(const Triple& t) {
-    if constexpr (OCL) return na::create_array<0>((const ll*)t.data, t.shape.data(), t.dim);
-    else return na::device_array(t.data, na::create_vector<0>(t.shape.data(), t.dim), t.dim);
+template <bool OCL, typename E> static auto rebuild(const Triple& t) {
+    if constexpr (OCL) return na::create_array<0>((const E*)t.data, t.shape.data(), t.dim);
+    else return na::device_array((E*)t.data, na::create_vector<0>(t.shape.data(), t.dim), t.dim);
 }
 
-template <auto DIM, typename F, typename Ops>
-static void one_thread(std::vector<ll>& buf, const std::vector<size_t>& osh, const F& f, const Ops& ops, size_t tid, size_t bid, size_t bsz) {
+template <auto DIM, typename O, typename F, typename Ops>
+static void one_thread(std::vector<O>& buf, const std::vector<size_t>& osh, const F& f, const Ops& ops, size_t tid, size_t bid, size_t bsz) {
     auto output = na::create_mutable_array<DIM>(buf.data(), osh.data(), osh.size());
     auto result = fn::apply(f, ops);
     auto thread_id  = na::kernel_size<size_t>{tid, 0, 0};
@@ -79,25 +93,27 @@ static std::string run_kernel(const V& v, size_t bsz, const std::vector<ll>& tid
     std::vector<Triple> triples;
     meta::template_for<N>([&](auto i) { triples.push_back(triple_of(deref(nm::at(ops, i)))); });
     auto dev_ops = meta::template_reduce<N>([&](auto init, auto i) {
-        return nm::utility::tuple_append(init, rebuild<OCL>(triples[decltype(i)::value]));
+        using leaf_t = std::decay_t<decltype(deref(nm::at(ops, i)))>;
+        return nm::utility::tuple_append(init, rebuild<OCL, elem_of<leaf_t>>(triples[decltype(i)::value]));
     }, nmtools_tuple<>{});
+    using O = meta::get_element_type_t<std::decay_t<decltype(nm::unwrap(v))>>;      // element type of the output buffer
     std::vector<size_t> osh = shape_vec(nm::shape(v));
     if constexpr (DIM > 0) { if (osh.size() != (size_t)DIM) return "unsupported"; }
     size_t n = 1; for (auto e : osh) n *= e;
-    std::vector<ll> buf(n + GUARD, SENTINEL);
+    std::vector<O> buf(n + GUARD, (O)SENTINEL);
     std::string writes;
     for (size_t s = 0; s < tids.size(); s++) {
         one_thread<DIM>(buf, osh, f, dev_ops, (size_t)tids[s], (size_t)bids[s], bsz);
         // the same thread alone on a fresh buffer: which cells does it write?
-        std::vector<ll> probe(n + GUARD, SENTINEL);
+        std::vector<O> probe(n + GUARD, (O)SENTINEL);
         one_thread<DIM>(probe, osh, f, dev_ops, (size_t)tids[s], (size_t)bids[s], bsz);
         std::string w;
-        for (size_t j = 0; j < probe.size(); j++) if (probe[j] != SENTINEL) w += (w.empty() ? "" : "+") + std::to_string(j);
+        for (size_t j = 0; j < probe.size(); j++) if (probe[j] != (O)SENTINEL) w += (w.empty() ? "" : "+") + std::to_string(j);
         writes += (s ? "," : "") + (w.empty() ? std::string("-") : w);
     }
     std::string o = "host " + show(v) + " | kernel ok " + joinc(osh) + " ;";
-    for (size_t i = 0; i < n; i++) o += (i ? "," : " ") + std::to_string(buf[i]);
-    bool clob = false; for (size_t i = n; i < buf.size(); i++) clob = clob || buf[i] != SENTINEL;
+    for (size_t i = 0; i < n; i++) o += (i ? "," : " ") + num_str(buf[i]);
+    bool clob = false; for (size_t i = n; i < buf.size(); i++) clob = clob || buf[i] != (O)SENTINEL;
     o += std::string(" | guard ") + (clob ? "clobbered" : "ok") + " | writes " + writes;
     return o;
 }
@@ -129,6 +145,7 @@ static std::string handle(const Case& c) {
         auto a = make_array(c.args[2]); auto b = make_array(c.args[3]);
         size_t bsz = (size_t)c.args[5].val; const auto& tids = c.args[6].list; const auto& bids = c.args[7].list;
         if (tids.size() != bids.size() || bsz == 0) return "unsupported";
+#if C13_PART == 1
         // depth 1
         if (comp == "add")        return run_style(style, view::add(a, b), bsz, tids, bids);
         if (comp == "tr")         return run_style(style, view::transpose(a), bsz, tids, bids);
@@ -143,13 +160,43 @@ static std::string handle(const Case& c) {
         if (comp == "mm_tr_r")    return run_style(style, view::matmul(a, view::transpose(b)), bsz, tids, bids);
         // a broadcasting binary ufunc over a non-leaf operand at position 0 (extraction skips the broadcast_to wrapper)
         if (comp == "sub_tr_l")   return run_style(style, view::subtract(view::transpose(a), b), bsz, tids, bids);
+#else
+        // ---- part 2 (second build of this source): views whose attributes carry RUN-TIME values into the extracted
+        // function, and outputs of rank 5..8 (the kernel's shape capacity).  Parameters come from the case line:
+        // L:<params>; activation parameters are given in quarters (p/4), the data are doubles that are multiples of 4,
+        // so every expected value is an integer and exact in float and double.
+        const std::vector<ll> none; const auto& P = c.args.size() > 8 ? c.args[8].list : none;
+        auto q = [&](size_t k) { return (float)((double)P.at(k) / 4.0); };
+        auto ad = make_array<dyn_t<double>>(c.args[2]); auto bd = make_array<dyn_t<double>>(c.args[3]);
+        if (style == "cudaN") return "unsupported";
+        // parameterised unary ufuncs, alone / as outer node / as inner node of depth-2 and depth-3 compositions
+        if (comp == "lrelu")         return run_style(style, view::leaky_relu(ad, q(0)), bsz, tids, bids);
+        if (comp == "htanh")         return run_style(style, view::hardtanh(ad, q(0), q(1)), bsz, tids, bids);
+        if (comp == "hshrink")       return run_style(style, view::hardshrink(ad, q(0)), bsz, tids, bids);
+        if (comp == "sshrink")       return run_style(style, view::softshrink(ad, q(0)), bsz, tids, bids);
+        if (comp == "lrelu_add")     return run_style(style, view::leaky_relu(view::add(ad, bd), q(0)), bsz, tids, bids);
+        if (comp == "add_lrelu")     return run_style(style, view::add(view::leaky_relu(ad, q(0)), bd), bsz, tids, bids);
+        if (comp == "sum_htanh")     return run_style(style, view::sum(view::hardtanh(ad, q(0), q(1)), 0), bsz, tids, bids);
+        if (comp == "neg_tr_lrelu")  return run_style(style, view::negative(view::transpose(view::leaky_relu(ad, q(0)))), bsz, tids, bids);
+        if (comp == "htanh_tr_add")  return run_style(style, view::hardtanh(view::transpose(view::add(ad, bd)), q(0), q(1)), bsz, tids, bids);
+        if (comp == "sshrink_lrelu") return run_style(style, view::softshrink(view::leaky_relu(ad, q(0)), q(1)), bsz, tids, bids);
+        // a reduction whose axis and initial value are run-time attributes
+        if (comp == "sum_ax_init")   return run_style(style, view::sum(a, (int)P.at(0), nm::None, (ll)P.at(1)), bsz, tids, bids);
+        // outputs of rank 5..8 from operands of rank 1..4 (params = axes / target shape / repetitions)
+        if (comp == "expd")          return run_style(style, view::expand_dims(a, vec_of<int>(P)), bsz, tids, bids);
+        if (comp == "neg_expd")      return run_style(style, view::negative(view::expand_dims(a, vec_of<int>(P))), bsz, tids, bids);
+        if (comp == "expd_tr")       return run_style(style, view::expand_dims(view::transpose(a), vec_of<int>(P)), bsz, tids, bids);
+        if (comp == "reshape_hi")    return run_style(style, view::reshape(a, vec_of<size_t>(P)), bsz, tids, bids);
+        if (comp == "bto_hi")        return run_style(style, view::broadcast_to(a, vec_of<size_t>(P)), bsz, tids, bids);
+        if (comp == "tile_hi")       return run_style(style, view::tile(a, vec_of<size_t>(P)), bsz, tids, bids);
+#endif
         return "unsupported";
     }
     if (op == "rebuild") {
         auto a = make_array(c.args[0]);
         Triple t = triple_of(a);
-        auto v1 = rebuild<true>(t);
-        auto v2 = rebuild<false>(t);
+        auto v1 = rebuild<true, ll>(t);
+        auto v2 = rebuild<false, ll>(t);
         return show(v1) + " | " + show(v2);
     }
     if (op == "offset") {
